@@ -178,6 +178,7 @@ class Family:
         self.mism, self.bad, self.unit_errors, self.samples = [], [], [], []
         self.stats = {}
         self.kinds = {}
+        self.distinct = set()
         with Lock():
             self.cres = run_genconsts()
             self.thm = check_theorems(props)
@@ -229,6 +230,9 @@ class Family:
                 if m != g:
                     self.mism.append((u.name, l, m, g))
                     n += 1
+                # non-trivial = the generated code produced a positive answer (an item, an object, bytes), not none / reject / error
+                if g.startswith(("ok", "acc=", "s=ok")):
+                    self.distinct.add(hash((u.name, l)))
             if lines and len(self.samples) < 14:
                 j = random.Random(len(self.samples) * 7919 + len(lines)).randrange(len(lines))
                 self.samples.append({"schema": u.name, "kind": kind, "op": trunc(lines[j], 200), "go": trunc(go[j], 160), "model": trunc(mo[j], 160)})
@@ -284,7 +288,8 @@ class Family:
                             ["axioms: " + (", ".join(thm["axioms"]) if thm["axioms"] else "none (every theorem closed under the global context)")],
             "theorems": thm["statements"], "assumptions_per_theorem": thm["assumptions"],
             "evaluations": self.stats.get("evaluations", 0),
-            "distinct_nontrivial": nontrivial if nontrivial is not None else self.stats.get("evaluations", 0),
+            "distinct_nontrivial": nontrivial if nontrivial is not None else len(self.distinct),
+            "nontrivial_rule": "distinct (schema, operation) pairs on which the generated code gave a positive answer (item found / object state observed / bytes written), not none, reject or error",
             "rule": rule, "stats": self.stats, "op_kinds": self.kinds, "correspondence": self.corr,
             "correspondence_mismatches": len(self.mism), "oracle_failures": len(self.bad),
             "samples": self.samples or [{"note": "no ops ran"}],
